@@ -54,7 +54,7 @@ ASSERT = {
 }
 # transformer host: chains of non-commuting steps on the text 'a'
 TSTEPS = [(['replace', 'a', 'b'], lambda s: s.replace('a', 'b')), (['replace', 'b', 'ca'], lambda s: s.replace('b', 'ca')),
-          (['char-case', '-to-upper'], lambda s: s.upper()), (['replace', 'A', 'ab'], lambda s: s.replace('A', 'ab'))]
+          (['char-case', '-to-upper'], lambda s: s.upper()), (['replace', 'A', 'ab'], lambda s: s.replace('A', 'ab')), (['identity'], lambda s: s)]
 
 
 # --------------------------------------------------------------------------------------------
@@ -696,7 +696,38 @@ def _transformer(res, case):
         if o.rc != 0 or o.out != 'PASS\n':
             res.violation(case, ['transformer chains %d..%d: expected PASS, got rc=%s %s' % (i, i + BATCH, o.rc, o.out.strip()),
                                  ' / '.join(cli.stderr_lines(o.err)[:6])], {'file': text[:2500]})
-    res.nontrivial += idx
+    # the same chains as the transformation of a PROGRAM's output and through symbol references as operands
+    progs = []
+    idx2 = 0
+    for k in (2, 3):
+        for seq in itertools.product(range(n), repeat=k):
+            if 4 not in seq and k == 3:
+                continue  # (the identity step is what makes grouping matter for the implementation's shortcuts)
+            val = 'a'
+            for i in seq:
+                val = TSTEPS[i][1](val)
+            steps = [' '.join(TSTEPS[i][0]) for i in seq]
+            grouped = '( %s | %s )' % (steps[0], steps[1]) + ''.join(' | ' + s_ for s_ in steps[2:])
+            grouped_r = steps[0] + ' | ( ' + ' | '.join(steps[1:]) + ' )'
+            for expr in (' | '.join(steps), grouped, grouped_r):
+                progs.append(('file p%d.txt = -stdout-from %% gen\n   -transformed-by ( %s )' % (idx2, expr), "contents p%d.txt : equals '%s'" % (idx2, val)))
+                idx2 += 1
+            progs.append(('def text-transformer S%d = %s | %s\ndef text-transformer R%d = S%d%s' % (idx2, steps[0], steps[1], idx2, idx2, ''.join(' | ' + s_ for s_ in steps[2:])),
+                          "contents t.txt : -transformed-by R%d equals '%s'" % (idx2, val)))
+            idx2 += 1
+    for i in range(0, len(progs), BATCH):
+        _setup_world(w, seam)
+        seam.script['gen'] = {'out': 'a'}
+        w.write('t.txt', 'a')
+        chunk = progs[i:i + BATCH]
+        text = '\n'.join(['[conf]', 'act-home = .', '[setup]', 'copy t.txt'] + [d for d, _ in chunk] + ['[act]', '% atc', '[assert]'] + [a for _, a in chunk]) + '\n'
+        o = cli.run_case(text)
+        res.n += len(chunk)
+        res.outcomes[('transformer-program', o.ident)] += 1
+        if o.rc != 0 or o.out != 'PASS\n':
+            res.violation(case, ['transformer chains as a program\'s -transformed-by / through symbols %d..%d: expected PASS, got rc=%s %s' % (i, i + BATCH, o.rc, o.out.strip()),
+                                 ' / '.join(cli.stderr_lines(o.err)[:6])], {'file': text[:2500]})
+    res.nontrivial += idx + idx2
     return res
 
 
